@@ -86,13 +86,11 @@ theorem code_fence_delimiter_eq (line : Text) : code_fence_delimiter line = .ok 
   simp only [asBytes, byteAsChar, h1, bindE_ok]
   by_cases hc : i > 3 ∨ i ≥ line.length
   · have : (decide (i > 3) || decide (i ≥ len line)) = true := by simpa [len] using hc
-    have this' : (decide (i > 3) || decide (i ≥ line.length)) = true := this
-    simp only [this, this', if_true]
+    simp only [this, if_true]
   · have hlt : i < line.length := by omega
     have hnc : (decide (i > 3) || decide (i ≥ len line)) = false := by
       simp [len]; omega
-    have hnc' : (decide (i > 3) || decide (i ≥ line.length)) = false := hnc
-    simp only [hnc, hnc']
+    simp only [hnc]
     cases hd : line.drop i with
     | nil => have := congrArg List.length hd; simp at this; omega
     | cons m rest =>
@@ -110,7 +108,7 @@ theorem code_fence_delimiter_eq (line : Text) : code_fence_delimiter line = .ok 
         simp only [h3, bindE_ok, List.takeWhile_cons, beq_self_eq_true, if_true, List.length_cons, usub_add_left]
         have e : 1 + (List.takeWhile (fun x => x == m) rest).length = (List.takeWhile (fun c => c == m) rest).length + 1 := by omega
         rw [e]
-        by_cases h3' : (List.takeWhile (fun c => c == m) rest).length + 1 < 3 <;> simp [hnc, h3']
+        by_cases h3' : (List.takeWhile (fun c => c == m) rest).length + 1 < 3 <;> simp [h3']
 
 theorem length_takeWhile_le' (p : Char → Bool) (l : Text) : (l.takeWhile p).length ≤ l.length :=
   (List.takeWhile_sublist p).length_le
@@ -143,7 +141,7 @@ theorem dropWhile_all (p : Char → Bool) : ∀ l : Text, (l.dropWhile p).all p 
   | cons c cs ih =>
     by_cases hp : p c = true
     · simp only [List.dropWhile_cons, hp, if_true, ih, List.all_cons, Bool.true_and]
-    · simp [List.dropWhile_cons, hp]
+    · simp [hp]
 
 theorem dropWhile_isEmpty (p : Char → Bool) : ∀ l : Text, (l.dropWhile p).isEmpty = l.all p := by
   intro l
@@ -152,7 +150,7 @@ theorem dropWhile_isEmpty (p : Char → Bool) : ∀ l : Text, (l.dropWhile p).is
   | cons c cs ih =>
     by_cases hp : p c = true
     · simp only [List.dropWhile_cons, hp, if_true, ih, List.all_cons, Bool.true_and]
-    · simp [List.dropWhile_cons, hp]
+    · simp [hp]
 
 /-- `s.trim_matches(p).is_empty()` says that every character of `s` satisfies `p` -/
 theorem trimMatches_isEmpty (p : Char → Bool) (s : Text) : isEmpty (trimMatches p s) = s.all p := by
@@ -173,8 +171,7 @@ theorem is_code_fence_close_eq (line : Text) (marker : Char) (minLen : Nat) :
     have ha := codeFence_after_le line m c a h
     simp only
     by_cases hc : (m != marker || decide (c < minLen)) = true
-    · have hc' : (m != marker || decide (c < minLen)) = true := hc
-      simp [hc]
+    · simp [hc]
     · simp only [hc, sliceFrom, ha, if_true, bindE_ok, trimMatches_isEmpty]
       simp
 
@@ -191,7 +188,7 @@ theorem braced_length (t : Text) (h1 : t.head? = some '{') (h2 : t.getLast? = so
     exact absurd h2 (by decide)
   | _ :: _ :: _, _, _ => simp
 
-theorem slice_inner (t : Text) (h : 2 ≤ t.length) : (t.take (t.length - 1)).drop 1 = (t.drop 1).dropLast := by
+theorem slice_inner (t : Text) (_h : 2 ≤ t.length) : (t.take (t.length - 1)).drop 1 = (t.drop 1).dropLast := by
   rw [List.dropLast_eq_take, List.drop_take, List.length_drop]
 
 /-- `standalone_braced_content` as written: never panics, and returns the text between the braces -/
@@ -231,11 +228,7 @@ theorem includeTarget_eq (body : Text) :
     have hd : decide (2 ≤ (trimWs body).length) = true := by simpa using hlen
     simp only [hc, hd, if_true, looks_like_mech_include_eq, bindE_ok, Bool.and_true]
     split <;> rfl
-  · have hc' : ((trimWs body).head? == some '{' && (trimWs body).getLast? == some '}' &&
-        decide (2 ≤ (trimWs body).length)) = false := by
-      simp only [Bool.not_eq_true] at hc
-      rw [hc]; rfl
-    simp only [hc, hc']
+  · simp only [hc]
     rfl
 
 /-! ### the `active_set` discipline: the check `chk` is sound for the semantics `Exec` -/
